@@ -1,37 +1,77 @@
 PROP = {
-    "groups": ["proc", "e2e-hang"],
+    "groups": ["proc", "errtell", "e2e-hang"],
     "rule": "proc: for each of the three generated nets (send, recv, hash) the numbers of goroutines, channels, "
             "defer-closed channels, range loops and the sorted channel capacities counted by an independent name-based "
-            "go/ast walk vs the numbers the extracted model computes from the generated skeleton; plus the real sender "
-            "against a peer that falls silent at the 1st/2nd DATA frame: goroutines left after the client returned vs "
-            "wf(send_net); every case is non-trivial; distinct = distinct input line. "
-            "e2e-hang: the real client (filter) against the real trz/tsz children with a fault injected at a sampled write boundary after the handshake has begun: one direction falls silent, one write is discarded, the server's input is closed, the source shrinks or disappears mid-transfer, the destination directory disappears; oracles: both sides return within 3 x timeout + 6 s, and 1.5 s after all runs no goroutine with a trzszTransfer / sendDataWriter / recvDataReader frame is left in the client process.",
+            "go/ast walk vs the numbers the extracted model computes from the generated skeleton; proc_faults: 'every return "
+            "of a stage goroutine that is not behind ctx.Done()/ctx.Err() and does not follow a result send is directly "
+            "preceded by a call of cancel', the number of `defer ...cancel(nil)` of the main function and the number of "
+            "error tests separated from their operation by a select, decided by a plain go/ast walk, vs faults_cancel and "
+            "the counts of the extracted model; plus the real sender against a peer that falls silent at the 1st/2nd DATA "
+            "frame: goroutines left after the client returned vs wf(send_net) && faults_cancel(send_net); every case is "
+            "non-trivial; distinct = distinct input line. "
+            "errtell: the real clientError / serverError called with an error of every class the code distinguishes "
+            "(plain error; *trzszError with errType \"\", fail, FAIL, EXIT, panic, colon, SUCC x trace flag x message is / is not "
+            "the text of errStoppedAndDeleted) x stopAndDelete flag x a created file exists or not, 232 cases: the lines "
+            "written to the peer (type, with or without the deleted names, before or after cleanInput / serverExit), whether "
+            "the terminal was reset and whether the created file was deleted, vs the extracted interpreter run on the "
+            "regenerated skeleton; direct oracles: a side whose error is not the peer's own EXIT/fail/FAIL line writes exactly "
+            "one fail/FAIL line after cleanInput, a side whose error is such a line writes nothing. "
+            "e2e-hang: the real client (filter) against the real trz/tsz children with a fault injected at a sampled write boundary after the handshake has begun: one direction falls silent, one write is discarded, the server's input is closed, the source shrinks or disappears mid-transfer, the destination directory disappears, the destination file accepts no byte (a link to /dev/full opened with overwrite: ENOSPC on every write); oracles: both sides return within 3 x timeout + 6 s, and 1.5 s after all runs no goroutine with a trzszTransfer / sendDataWriter / recvDataReader frame is left in the client process.",
     "trusted": [
         "skeleton translator go/cmd/gen/skel_*.go: syntactic; classification table of wire/file calls (skTable); "
         "a call it cannot classify becomes Io Unknown, which wf rejects",
+        "error paths (IoE k h): the translator follows the error variable an operation assigns (`x, err := OP()`, "
+        "`if err := OP(); err != nil`) through the statements that follow, once knowing it holds an error (h) and once "
+        "knowing it holds none; 'holds an error' = not nil and not io.EOF; an operation whose error path rejoins the normal "
+        "path, or whose error nobody tests, stays a bare Io, which faults_cancel rejects; `if err != nil {..}` on an error "
+        "that was not assigned by an operation of the table and `if cond { ...; return }` in a stage goroutine (other than "
+        "`ch <- result; return`) are failures of the stage itself (IoE Check); error returns inside the codec wrappers around "
+        "the channel-backed reader/writer surface as the error of the wrapper call",
         "modelled, not verified: Io operations return (wire read: data | stop | timeout with Timeout > 0, justified by "
-        "buffer.go nextBuffer; wire write; file I/O; pause gate); goroutines started inside zstd are outside the model",
+        "buffer.go nextBuffer; wire write; file I/O; pause gate; a computation of the stage itself); goroutines started inside zstd are outside the model",
         "over-approximations of the language: Branch is a free choice, LoopCtx/LoopData heads may leave at any visit, "
         "break/continue/inlined return inside such a loop = skip the rest of the iteration, all goroutines of a net "
-        "exist from the start, deferred calls count as registered from the start",
+        "exist from the start (the net starts where the main function creates its context; what it does before is kept "
+        "apart as <net>_main_prelude), deferred calls count as registered from the start",
+        "errtell: the error classes of the interpreter (errType \"\", fail, FAIL, EXIT, other) and the hand-written mapping "
+        "of the harness's errType strings onto them (ocaml/m_errtell.ml, go/cmd/gen/errtell.go etTypeOf); "
+        "/repo/trzsz/export_verif_errtell.go (build tag verif)",
     ],
     "assumptions": ["Timeout > 0 (a timeout <= 0 means the user asked to wait indefinitely)",
-                    "the Go runtime schedules runnable goroutines and fires timers (wall-clock bounds are measured, not proved)",
-                    "theorems start from a state in which some stage has called ctx.cancel; that every fault reaches such a call is exercised by the e2e fault sweep, not proved here"],
+                    "the Go runtime schedules runnable goroutines and fires timers (wall-clock bounds are measured, not proved): "
+                    "between a fault and ctx.cancel the failing goroutine has to be scheduled (at most |h| + 2 times)",
+                    "fault => cancel is proved per goroutine; for two error paths (file reader of the sender, decoder of the receiver: "
+                    "a Read that fails after delivering bytes hands those bytes on before it cancels) the hand-over may wait for "
+                    "a consumer: that it cannot wait for ever is 'no deadlock without a fault', exercised by the e2e sweep, not proved"],
     "nontrivial_floor": 0.3,
     "timeout": 600,
 }
 TEXT = {
     "text": "Machine-checked proof about the goroutine skeletons regenerated on every run from pipeline.go and append.go "
-            "(process-network language, interleaving semantics with bounded channels, close flags, wait groups): for every "
-            "well-formed net, from every reachable state in which the context is cancelled, every execution under every "
-            "schedule has at most an explicit number of further steps and ends with every goroutine exited. "
-            "The send net, the receive net and the hash net are all well-formed (the send net only since the fix of the "
-            "buffer-size probing wait, a real goroutine leak found by this check: KNOWN_FINDINGS fixed bufinit-wait-leak). "
-            "The theorems are tied to the code by regenerating the skeletons, by translator sanity counts, and by fault "
-            "injection on the real client and server with hang and goroutine-leak oracles.",
-    "note": "Trusted: Coq kernel, skeleton translator, extraction, OCaml driver, Go harness. Not proved: wall-clock bounds, "
-            "fault => cancel for each fault kind, absence of deadlock without a fault, the check/send race on ctx.succ "
-            "(send on a closed channel is a modelled panic step, not excluded).",
-    "technique": "Coq proof (truncated measure for boundedness; rank induction for deadlock freedom) over regenerated skeletons + translator sanity counts + silent-peer scenario on the real sender",
+            "(process-network language, interleaving semantics with bounded channels, close flags, wait groups). "
+            "(1) Every fault reaches ctx.cancel: the translator ties the error path of every operation that can fail (wire read, "
+            "wire write, pause gate, file I/O, codec / parsing / consistency checks of a stage) to the operation; on every path "
+            "through every error path the goroutine calls ctx.cancel before it leaves (faults_cancel = true for the send, receive "
+            "and hash nets, by computation on the generated terms), and the main functions cancel on every exit (defer "
+            "ctx.cancel(nil)). Consequence proved once for the language: from any reachable state in which an operation fails, "
+            "along every execution the failing goroutine has not left and has taken fewer than |h|+2 own steps until the context "
+            "is cancelled, it can move in every state until then (error paths that wait for nobody: all but two), and an "
+            "execution can only stop with every goroutine exited. "
+            "(2) From every reachable cancelled state every execution under every schedule has at most an explicit number of "
+            "further steps and ends with every goroutine exited (well-formed nets: all three, the send net only since the fix of "
+            "the buffer-size probing wait, a real goroutine leak found by this check: KNOWN_FINDINGS fixed bufinit-wait-leak). "
+            "(3) A side that can still talk tells its peer why: the decision skeletons of clientError / serverError and of the "
+            "error predicates they consult are regenerated and interpreted for all 160 error classes: cleanInput first; exactly one "
+            "fail/FAIL line (fail with the deleted names after a stop-and-delete that deleted something, else by the traceback "
+            "flag) unless the error is the peer's own EXIT/fail/FAIL line, then none; the server resets the terminal exactly once, "
+            "last; the call sites in filter.go, trz.go, tsz.go are pinned. "
+            "Tied to the code by regenerating the skeletons, by translator sanity counts, by calling the real clientError / "
+            "serverError on every error class, and by fault injection on the real client and server with hang and "
+            "goroutine-leak oracles.",
+    "note": "Trusted: Coq kernel, skeleton translators, extraction, OCaml driver, Go harness. Not proved: wall-clock bounds, "
+            "absence of deadlock without a fault (so: that the two error paths that first hand bytes on cannot wait for ever), "
+            "the check/send race on ctx.succ (send on a closed channel is a modelled panic step, not excluded). Observed: in "
+            "trz/tsz the recover that turns a panic into a FAIL line is deferred in TrzMain/TszMain, not in the goroutine "
+            "that runs the transfer (a panic there ends the process without a line; C12 is the property about panics).",
+    "technique": "Coq proof (truncated measure for boundedness; rank induction for deadlock freedom; per-goroutine error-path analysis for fault => cancel; exhaustive interpretation of the error-reporting skeleton) over regenerated skeletons + translator sanity counts + real clientError/serverError on every error class + fault sweep on the real client and server",
 }
